@@ -51,7 +51,7 @@ pub fn run(ctx: &mut Ctx) {
     ctx.floor("dtls.many.err", 300);
     ctx.floor("alias.cases", 10_000);
 
-    let n = ctx.tier.pick(10_000, 100_000);
+    let n = ctx.tier.pick(40000, 400000);
     ctx.family("tls", n, |ctx, case: &mut Case| {
         let r = &mut case.rng;
         let kmax = match r.below(40) {
@@ -165,7 +165,7 @@ pub fn run(ctx: &mut Ctx) {
         }
     });
 
-    let n = ctx.tier.pick(10_000, 100_000);
+    let n = ctx.tier.pick(40000, 400000);
     ctx.family("dtls", n, |ctx, case: &mut Case| {
         let r = &mut case.rng;
         let kmax = match r.below(40) {
